@@ -293,6 +293,9 @@ PATCH_BODIES = [
     ("jmp .Lskip\n.byte 1, 2, 3\n.Lskip:\nleaq .Lskip(%rip), %rax\n", [".Lskip"]),
     (".La:\n.Lb:\nnop\njne .Lb\njne .La\n", [".La", ".Lb"]),
 ]
+# labels the author numbered himself: .Lr and .Lr_2 - the second looks like the first with a suffix
+NUMBERED = ("jne .Lr\nnop\n.Lr:\njne .Lr_2\nnop\n.Lr_2:\nnop\n", [".Lr", ".Lr_2"])
+SIG_NUMBERED = "author-numbered-label-meets-the-suffixed-label-of-an-earlier-copy"
 
 
 def gen_copies(rng):
@@ -326,6 +329,8 @@ def check_copies(ctx, case):
     before = {s.name for s in m.symbols}
     rc = RewritingContext(m, gtirb_functions.Function.build_functions(m))
     bodies = [PATCH_BODIES[case["body"]]] + ([PATCH_BODIES[case["second"]]] if case.get("second") is not None else [])
+    if case.get("numbered"):
+        bodies = [NUMBERED]
     plan = []
     for k, (b, off) in enumerate(case["places"]):
         asm, temps = bodies[k % len(bodies)]
@@ -339,6 +344,9 @@ def check_copies(ctx, case):
     try:
         rc.apply()
     except Exception as e:  # noqa: BLE001
+        if case.get("numbered") and len(plan) >= 3 and type(e).__name__ == "MultipleDefinitionsError":
+            ctx.violation("C13:" + SIG_NUMBERED, "inserting a patch with the labels .Lr and .Lr_2 %d times raised %s: %s" % (len(plan), type(e).__name__, str(e)[:120]), case)
+            return
         ctx.violation("C13:copies-raise", "inserting the patch %d times raised %s: %s" % (len(plan), type(e).__name__, str(e)[:120]), case)
         return
     names = [s.name for s in m.symbols]
@@ -355,7 +363,7 @@ def check_copies(ctx, case):
         ctx.count("temp-symbols", len(got))
         if len(got) != n:
             ctx.violation("C13:temp-label-count", "%d copies define %s but the module has %d symbols %s_<id>: %s" % (n, t, len(got), t, sorted(s.name for s in new)[:8]), case)
-        if any(s.name == t for s in m.symbols):
+        if any(s.name == t for s in m.symbols) and not case.get("numbered"):
             ctx.violation("C13:temp-label-without-suffix", "a symbol named %s (no suffix) exists" % t, case)
     # each copy's jump reaches, and names, a label of its own copy: the label with the same suffix
     by_interval = {}
@@ -437,6 +445,75 @@ def check_extern(ctx, g):
                     ctx.violation("C13:module-symbol-not-bound", "the patch's operand names log_event but not the symbol object the module holds", g)
 
 
+def check_assign(ctx, g):
+    """defining a name the module already has is a MultipleDefinitionsError, however the definition is written: a label,
+    `name = value`, `.set name, value`, `.equ name, value`; a name the module does not have is accepted once"""
+    import gtirb
+    from gtirb_test_helpers import add_code_block, add_data_block, add_proxy_block, add_symbol, add_text_section, create_test_module
+
+    from gtirb_rewriting.assembler import Assembler, MultipleDefinitionsError
+
+    ctx.case(g, nontrivial=True)
+    ctx.count("definition:" + g["form"])
+    ir, m = create_test_module(gtirb.Module.FileFormat.ELF, gtirb.Module.ISA.X64, binary_type=["DYN"])
+    _, bi = add_text_section(m, address=0x1000)
+    ref = {"code": add_code_block(bi, b"\x90\xc3"), "data": add_data_block(bi, b"\x00" * 4), "proxy": add_proxy_block(m)}[g["holder"]]
+    add_symbol(m, "taken", ref)
+    name = "taken" if g["clash"] else "fresh_name"
+    text = {"label": "nop\n%s:\nnop\n", "eq": "nop\n%s = 8\nnop\n", "set": "nop\n.set %s, 1\nnop\n", "equ": "nop\n.equ %s, 16\nnop\n"}[g["form"]] % name
+    a = Assembler(m, temp_symbol_suffix="_7")
+    try:
+        a.assemble(text)
+        res = a.finalize()
+        err = None
+    except MultipleDefinitionsError:
+        err = "MultipleDefinitionsError"
+    except Exception as e:  # noqa: BLE001
+        err = type(e).__name__
+    if g["clash"] and err != "MultipleDefinitionsError":
+        ctx.violation("C13:existing-name-defined", "the module has a symbol `taken` (%s); the text defines it again with %r and the assembler answers %s"
+                      % (g["holder"], text.splitlines()[1], err or "with a Result that holds a second symbol of that name"), g)
+    if not g["clash"] and err is not None:
+        ctx.violation("C13:fresh-name-refused", "defining the unused name with %r raised %s" % (text.splitlines()[1], err), g)
+    if not g["clash"] and err is None and sum(1 for y in res.symbols if y.name == name) != 1:
+        ctx.violation("C13:fresh-name-count", "defining the unused name once gives %d symbols of that name" % sum(1 for y in res.symbols if y.name == name), g)
+
+
+def check_reuse(ctx, g):
+    """one Assembler object used for several assemblies (assemble, finalize, assemble again): what it was constructed
+    with - undefined symbols allowed or not, entry unreachable or not - holds for every one of them"""
+    import gtirb
+    from gtirb_test_helpers import add_code_block, add_text_section, create_test_module
+
+    from gtirb_rewriting.assembler import Assembler, UndefSymbolError
+
+    ctx.case(g, nontrivial=True)
+    ctx.count("assembler-reuse")
+    ir, m = create_test_module(gtirb.Module.FileFormat.ELF, gtirb.Module.ISA.X64, binary_type=["DYN"])
+    _, bi = add_text_section(m, address=0x1000)
+    add_code_block(bi, b"\x90\xc3")
+    a = Assembler(m, allow_undef_symbols=g["allow"], trivially_unreachable=g["unreachable"])
+    outcomes = []
+    for k in range(g["rounds"]):
+        try:
+            a.assemble("nop\ncall mystery_%d\n" % k)
+            res = a.finalize()
+            proxies = [y for y in res.symbols if y.name == "mystery_%d" % k and isinstance(y.referent, gtirb.ProxyBlock)]
+            outcomes.append("proxy" if len(proxies) == 1 else "no-proxy:%d" % len(proxies))
+        except UndefSymbolError:
+            outcomes.append("UndefSymbolError")
+            try:
+                a.finalize()
+            except Exception:  # noqa: BLE001
+                pass
+        except Exception as e:  # noqa: BLE001
+            outcomes.append(type(e).__name__)
+    want = ["proxy" if g["allow"] else "UndefSymbolError"] * g["rounds"]
+    if outcomes != want:
+        ctx.violation("C13:assembler-reuse", "Assembler(allow_undef_symbols=%s, trivially_unreachable=%s) used %d times for `call <unknown name>`: %s, expected %s"
+                      % (g["allow"], g["unreachable"], g["rounds"], outcomes, want), g)
+
+
 def run(ctx):
     for k in range(ctx.budget(24, 200)):
         check_extern(ctx, {"extern": True, "kind": ["code", "data", "proxy", "none"][k % 4], "calls": 1 + k % 3, "off": k % 3})
@@ -449,6 +526,15 @@ def run(ctx):
     flush(ctx, pending)
     for _ in range(ctx.budget(150, 3000)):
         check_copies(ctx, gen_copies(ctx.rng))
+    # author-numbered labels: one or two copies; the third copy is the recorded finding
+    for k in range(ctx.budget(12, 120)):
+        n = 1 + k % 2
+        check_copies(ctx, {"copies": True, "numbered": True, "body": 0, "nblocks": 2, "places": [[j % 2, [0, 1, 3][(k + j) % 3]] for j in range(n)], "second": None, "functions": 0})
+    check_copies(ctx, {"copies": True, "numbered": True, "body": 0, "nblocks": 2, "places": [[0, 0], [0, 1], [1, 0]], "second": None, "functions": 0})
+    for k in range(ctx.budget(32, 160)):
+        check_assign(ctx, {"assign": True, "form": ["label", "eq", "set", "equ"][k % 4], "holder": ["code", "data", "proxy"][(k // 4) % 3], "clash": (k // 12) % 2 == 0 or k % 5 == 0})
+    for k in range(ctx.budget(12, 60)):
+        check_reuse(ctx, {"reuse": True, "allow": k % 2 == 0, "unreachable": (k // 2) % 2 == 0, "rounds": 2 + k % 3})
 
 
 def replay(ctx, payload):
@@ -458,6 +544,12 @@ def replay(ctx, payload):
         return
     if case.get("copies"):
         check_copies(ctx, case)
+        return
+    if case.get("assign"):
+        check_assign(ctx, case)
+        return
+    if case.get("reuse"):
+        check_reuse(ctx, case)
         return
     pending = []
     check_case(ctx, case, pending)
